@@ -29,8 +29,9 @@ RULE = ("Shapes: all arrays with 1..3 dimensions and bounds 0..3 and all 4-dimen
         "read, the whole box of tuples from -1 to bound+1 tried for 1-2 dimensions), plus random "
         "shapes of 1..4 dimensions with bounds 0..30 and at most 4000 elements, all four element "
         "types, both loop orders; invalid tuples: every coordinate at -1, base-1, bound+1, "
-        "bound+2 and wrong arity. Histories: 3..25 operations of DIM, implicit first use "
-        "(indices base..11), ERASE, OPTION BASE, re-DIM, element assignment over three array "
+        "bound+2 and wrong arity. Histories: 3..25 operations of DIM (1..3 arrays per statement), "
+        "implicit first use (indices base..11), ERASE (1..3 names per statement, incl. missing "
+        "ones: partial erase), OPTION BASE, re-DIM, element assignment over three array "
         "names. Non-trivial: >= 2 dimensions with unequal bounds, or OPTION BASE 1, or an error "
         "path was exercised; distinct = distinct (shape, base, type, order) / operation list.")
 ASSUMPTIONS = [
@@ -384,50 +385,80 @@ def check_history(case, res):
                     if n == 1:
                         nontrivial = True
             elif o == 'dim':
-                if nm in dead:
+                # one DIM statement for 1..3 arrays; with several arrays only when the model
+                # predicts success for all of them (partial DIM is not specified)
+                specs = [(nm, list(op['dims']))] + [
+                    (NAMES[x['a'] % len(NAMES)], list(x['dims'])) for x in op.get('more', [])]
+                if any(n in dead for n, _ in specs):
                     continue
-                dims = list(op['dims'])
-                r = run(b'DIM %s(%s)' % (full, b','.join(b'%d' % d for d in dims)))
                 eff = base or 0
-                if nm in arrays:
-                    exp = {10}
-                elif any(d < 0 for d in dims):
-                    exp = {5}
-                elif any(d < eff for d in dims):
-                    exp = {9}
-                else:
-                    exp = {0}
+
+                def dim_exp(n, dims, have):
+                    if n in have:
+                        return {10}
+                    if any(d < 0 for d in dims):
+                        return {5}
+                    if any(d < eff for d in dims):
+                        return {9}
+                    return {0}
+                have = set(arrays)
+                ok = True
+                for n, dims in specs:
+                    if dim_exp(n, dims, have) != {0}:
+                        ok = False
+                    have.add(n)
+                if not ok:
+                    specs = specs[:1]
+                res.label('dim-arrays:%d' % len(specs))
+                exp = dim_exp(specs[0][0], specs[0][1], set(arrays))
+                text = b'DIM ' + b','.join(b'%s(%s)' % ((n + ty).encode(), b','.join(
+                    b'%d' % d for d in dims)) for n, dims in specs)
+                r = run(text)
                 if exp != {0}:
                     nontrivial = True
                 if r not in exp:
                     res.fail('dim.%s' % ('error-missing' if r == 0 else
                                          'spurious-error' if exp == {0} else 'wrong-error'),
-                             'step %d DIM %s(%s) base %r existing %s: %r, expected %r' % (
-                                 idx, full.decode(), dims, base, sorted(arrays), r, sorted(exp)))
+                             'step %d %r base %r existing %s: %r, expected %r' % (
+                                 idx, text, base, sorted(arrays), r, sorted(exp)))
                     raise Stop()
                 if r == 0:
                     if base is None:
                         base = 0
                     ever = True
-                    arrays[nm] = HArr(dims, base)
-                    if len(set(dims)) > 1:
-                        nontrivial = True
+                    for n, dims in specs:
+                        arrays[n] = HArr(dims, base)
+                        if len(set(dims)) > 1:
+                            nontrivial = True
             elif o == 'erase':
-                if nm in dead:
+                # one ERASE statement for 1..3 names; names before the first missing one are
+                # erased (manual), then Illegal function call
+                names = [nm] + [NAMES[x % len(NAMES)] for x in op.get('more', [])]
+                if any(n in dead for n in names):
                     continue
-                r = run(b'ERASE %s' % full)
-                exp = {0} if nm in arrays else {5}
+                res.label('erase-names:%d' % len(names))
+                r = run(b'ERASE ' + b','.join((n + ty).encode() for n in names))
+                gone = []
+                exp = {0}
+                for n in names:
+                    if n in arrays and n not in gone:
+                        gone.append(n)
+                    else:
+                        exp = {5}
+                        break
                 if r not in exp:
                     res.fail('erase.%s' % ('error-missing' if r == 0 else 'wrong-error'),
                              'step %d ERASE %s existing %s: %r, expected %r' % (
-                                 idx, full.decode(), sorted(arrays), r, sorted(exp)))
+                                 idx, names, sorted(arrays), r, sorted(exp)))
                     raise Stop()
-                if r == 0:
-                    del arrays[nm]
-                    if not arrays and not explicit:
-                        base = None
-                else:
+                for n in gone:
+                    del arrays[n]
+                if gone and not arrays and not explicit:
+                    base = None
+                if r != 0:
                     nontrivial = True
+                    if gone:
+                        res.label('erase-partial')
             elif o in ('put', 'get'):
                 if nm in dead:
                     continue
@@ -567,9 +598,16 @@ def gen_history(ch, maxsteps):
                     else ch.int(1, 5) for _ in range(nd)]
             while product([max(0, d) for d in dims], 0) > 200:
                 dims[dims.index(max(dims))] = 2
-            ops.append({'o': 'dim', 'a': ch.int(0, 2), 'dims': dims})
+            op = {'o': 'dim', 'a': ch.int(0, 2), 'dims': dims}
+            if ch.int(0, 2) == 0:
+                op['more'] = [{'a': ch.int(0, 2), 'dims': [ch.int(1, 4) for _ in range(
+                    ch.choice([1, 2]))]} for _ in range(ch.choice([1, 2]))]
+            ops.append(op)
         elif o == 'erase':
-            ops.append({'o': 'erase', 'a': ch.int(0, 2)})
+            op = {'o': 'erase', 'a': ch.int(0, 2)}
+            if ch.int(0, 2) == 0:
+                op['more'] = [ch.int(0, 2) for _ in range(ch.choice([1, 2]))]
+            ops.append(op)
         elif o == 'base':
             ops.append({'o': 'base', 'n': ch.int(0, 1)})
         else:
@@ -622,6 +660,13 @@ REGRESSIONS = [
     {'u': 'history', 'ty': '$', 'strict': True, 'ops': [
         {'o': 'dim', 'a': 2, 'dims': [3]}, {'o': 'base', 'n': 0}, {'o': 'erase', 'a': 2},
         {'o': 'base', 'n': 1}]},
+    {'u': 'history', 'ty': '%', 'ops': [
+        {'o': 'dim', 'a': 0, 'dims': [3], 'more': [{'a': 1, 'dims': [2, 2]}, {'a': 2, 'dims': [1]}]},
+        {'o': 'put', 'a': 2, 'i': [1], 'fit': False},
+        {'o': 'erase', 'a': 0, 'more': [1]},
+        {'o': 'get', 'a': 2, 'i': [1], 'fit': False},
+        {'o': 'erase', 'a': 2, 'more': [0]},
+        {'o': 'dim', 'a': 2, 'dims': [4, 1]}]},
     {'u': 'history', 'ty': '!', 'ops': [
         {'o': 'get', 'a': 0, 'i': [10], 'fit': False},
         {'o': 'get', 'a': 0, 'i': [11], 'fit': False},
@@ -645,4 +690,6 @@ KILLS = [
     'arrays.py erase_: clear an explicit OPTION BASE when the last array goes  => erase.redim-contents, history.contents',
     'arrays.py erase_: unknown array silently ignored  => erase.error-missing',
     'revert 53d02912 (option_base_ keeps _base_set_by_dim)  => optionbase.explicit-forgotten-after-erase',
+    'arrays.py erase_: all names checked first, no partial erase (ERASE A,missing)  => dim.spurious-error, escaped.KeyError@arrays.py:erase_',
+    'NOT VISIBLE HERE by design: erase_ address-record bookkeeping (C11 observes addresses; C12 only values and errors)',
 ]
